@@ -474,6 +474,9 @@ static size_t read_copy_command(LHAPM1Decoder *decoder, uint8_t *buf)
 	// Calculate the number of bytes back into the history buffer
 	// to read.
 
+#ifdef LHASA_VERIF
+	LHASA_VERIF_INDEX(copy_ranges, range_index);
+#endif
 	history_distance = decode_variable_length(&decoder->bit_stream_reader,
 	                                          copy_ranges, range_index);
 
@@ -532,6 +535,11 @@ static int read_byte_decode_index(LHAPM1Decoder *decoder)
 		}
 
 		ptr += child;
+#ifdef LHASA_VERIF
+		lhasa_verif_row(ptr, decoder->byte_decode_tree,
+		                sizeof(byte_decode_trees[0]),
+		                "byte_decode_trees");
+#endif
 	}
 }
 
@@ -556,6 +564,9 @@ static int read_byte(LHAPM1Decoder *decoder)
 	// is static huffman encoding, so that recently used byte
 	// values use fewer bits.
 
+#ifdef LHASA_VERIF
+	LHASA_VERIF_INDEX(byte_ranges, index);
+#endif
 	count = decode_variable_length(&decoder->bit_stream_reader,
 	                               byte_ranges, index);
 
